@@ -39,6 +39,14 @@ class Boom(Exception):
     pass
 
 
+_WHY: List[str] = []  # oracle clause that failed last (read by classify after a concrete re-run)
+
+
+def _no(reason: str) -> bool:
+    _WHY.append(reason)
+    return False
+
+
 def _mk_hierarchy():
     """Fresh Events class + target classes (class-level listener collections are global state of the Events
     class, so every path gets its own)."""
@@ -203,25 +211,26 @@ class _World:
         obs = list(self.calls)
         del self.calls[:]
         if skipped:
-            return not obs and not raised
+            return (not obs and not raised) or _no("exec_once:ran-twice")
         if how == 1:
             self.exec_once_done[i] = True
         if raising and nexp > 0:
             # the first listener raises, the exception reaches the caller, nothing else runs
             if not raised or len(obs) != 1 or obs[0][1] != x:
-                return False
-            if how == 2:
-                pass  # exec_once_unless_exception: will retry
-            return any(s and s[0].fn == obs[0][0] for s in seqs)
+                return _no("dispatch:raising-listener")
+            # (exec_once_unless_exception: will retry)
+            return any(s and s[0].fn == obs[0][0] for s in seqs) or _no("dispatch:raising-listener-order")
         if how == 2:
             self.exec_once_done[i] = True
         if raised:
-            return False
+            return _no("dispatch:unexpected-exception")
         for (f, xx) in obs:
             if xx != x:
-                return False
+                return _no("dispatch:argument")
+        if sorted(f for (f, _) in obs) != sorted(r.fn for s in seqs for r in s):
+            return _no("dispatch:wrong-set-of-listeners")  # a registered listener not called / called twice / an unregistered one called
         if not _is_shuffle([f for (f, _) in obs], [[r.fn for r in s] for s in seqs]):
-            return False
+            return _no("dispatch:order-within-one-target")
         for s in seqs:
             for r in s:
                 if r.once:
@@ -234,17 +243,17 @@ class _World:
             key, tgt = self.target(t)
             for f in range(3):
                 if event.contains(tgt, "ev_a", self.fns[f]) != (self.find(key, f) is not None):
-                    return False
+                    return _no("contains")
                 if event.contains(tgt, "ev_b", self.fns[f]):
-                    return False
+                    return _no("contains:other-event")
         for i in range(len(self.insts)):
             n = sum(len(self.regs[k]) for k in self._keys(i))
             if len(self.insts[i].dispatch.ev_a) != n or bool(self.insts[i].dispatch.ev_a) != (n > 0):
-                return False
+                return _no("len-or-bool")
             del self.calls[:]
             self.insts[i].dispatch.ev_b(5)
             if self.calls:
-                return False
+                return _no("dispatch:other-event")
             if not self.check_dispatch(i, 7, 0):
                 return False
         return True
@@ -275,26 +284,27 @@ class _Shape:
         prof 0 full; 1 no once / exec_once (order + hierarchy); 2 once / exec_once focus (no insert, targets {Sub,
         Sub instance}, two listener functions, no new classes / instances, dispatch on the Sub instance);
         3 like 1 without insert, targets {Base, Sub, Sub instance}, two functions, new instance of the newest class;
-        4 like 3 with targets {Sub, Sub instance}; 5 like 4 with a single listener function."""
+        4 like 3 with targets {Sub, Sub instance}; 5 like 4 with a single listener function;
+        6 class targets only {Base, Sub}, two functions, no insert/once, dispatch on the Sub instance (same function on several levels)."""
         ops = []
-        nf = 1 if prof == 5 else min(self.nused + 1, 2 if prof in (2, 3, 4) else 3)
-        tg = [1, 3] if prof in (2, 4, 5) else ([0, 1, 3] if prof == 3 else [0, 1, 2, 3])
+        nf = 1 if prof == 5 else min(self.nused + 1, 2 if prof in (2, 3, 4, 6) else 3)
+        tg = [1, 3] if prof in (2, 4, 5) else ([0, 1, 3] if prof == 3 else ([0, 1] if prof == 6 else [0, 1, 2, 3]))
         for t in tg:
             for f in range(nf):
                 if (t, f) in self.registered:
                     continue  # registering the identical triple twice is undocumented: outside
-                for i in ((False,) if prof in (2, 3, 4, 5) else (False, True)):
-                    for o in ((False,) if prof in (1, 3, 4, 5) else (False, True)):
+                for i in ((False,) if prof in (2, 3, 4, 5, 6) else (False, True)):
+                    for o in ((False,) if prof in (1, 3, 4, 5, 6) else (False, True)):
                         ops.append((0, t, f, i, o))
         for t in tg:
             for f in range(nf):
                 ops.append((1, t, f, False, False))
-        if prof != 2 and self.ncls == 2:
+        if prof not in (2, 6) and self.ncls == 2:
             ops.append((2, 0, 0, False, False))
-        if prof != 2 and self.ninst < 4:
+        if prof not in (2, 6) and self.ninst < 4:
             for c in ([self.ncls - 1] if prof in (3, 4, 5) else range(self.ncls)):
                 ops.append((3, c, 0, False, False))
-        insts = [1] if prof == 2 else list(range(self.ninst))
+        insts = [1] if prof in (2, 6) else list(range(self.ninst))
         for i in insts:
             ops.append((4, i, 0, False, False))
         if prof in (0, 2):
@@ -359,7 +369,7 @@ def _do(w: _World, op, x, pg: bool) -> bool:
         except sa_exc.InvalidRequestError:
             raised = True
         if raised != (r is None):
-            return False
+            return _no("remove:InvalidRequestError")
         if r is not None:
             w.regs[key].remove(r)
         return True
@@ -434,9 +444,11 @@ META = {
                              "insert?, once?; propagate per history), remove(target, fn), create Sub2(Sub), new instance of any existing class, dispatch / exec_once / "
                              "exec_once_unless_exception on any instance (exec_once variants with a symbolic value, x < 0: every listener raises); 3 operations in two profiles: "
                              "(order+hierarchy) no once/exec_once, and (once/exec_once) no insert, targets {Sub, Sub instance}, two functions, no new classes/instances; "
+                             "4 operations over listen/remove on {Base, Sub} with two functions + dispatch on the Sub instance (same function on several levels); "
                              "every run ends with a dispatch of both events on every instance and event.contains for every (target, fn)"},
         "thorough": {"history": "<=3 operations over the full alphabet; 4 operations without once/exec_once/insert, two listener functions, targets {Base, Sub, the Sub instance}, "
-                                "new instance of the newest class only; 5 operations likewise with targets {Sub, the Sub instance} and one listener function"},
+                                "new instance of the newest class only; 5 operations likewise with targets {Sub, the Sub instance} and one listener function; 5 operations over "
+                                "listen/remove on {Base, Sub} with two functions + dispatch on the Sub instance"},
     },
     "outside": [
         "thread schedules: concurrent exec_once / first-connect dispatch (the mutex in _CompoundListener._exec_once_impl)",
@@ -446,7 +458,8 @@ META = {
         "append a duplicate, instance-level ones ignore it)",
         "named=True / retval=True wrappers, legacy signatures, _JoinedListener (dispatch._join), _Dispatch._update/propagate sets, _clear()",
         "garbage collection of targets (registry._collection_gced)",
-        "which listener runs first when listeners on different targets raise; once-registrations combined with raising listeners",
+        "which listener runs first when listeners on different targets raise; once-registrations combined with raising listeners; "
+        "raising listeners in a plain dispatch (raising is explored for exec_once / exec_once_unless_exception only)",
     ],
     "stubs": [],
     "assumptions": ["listener functions are interchangeable, so histories are explored up to renaming of the three functions (canonical labelling)",
@@ -473,10 +486,12 @@ def harnesses(tier: str) -> List[Harness]:
         hs.append(Harness("events_full", h_events3, _slices(1, 0, both) + _slices(2, 0, both), budget_s=200))
         hs.append(Harness("events_len3_order", h_events3, _slices(3, 1), budget_s=200))
         hs.append(Harness("events_len3_once", h_events3, _slices(3, 2), budget_s=200))
+        hs.append(Harness("events_len4_levels", h_events5, _slices(4, 6), budget_s=200))
     else:
-        hs.append(Harness("events_full", h_events3, _slices(1, 0, both) + _slices(2, 0, both) + _slices(3, 0), budget_s=900))
-        hs.append(Harness("events_len4", h_events5, _slices(4, 3), budget_s=900))
-        hs.append(Harness("events_len5", h_events5, _slices(5, 5), budget_s=1500))
+        hs.append(Harness("events_full", h_events3, _slices(1, 0, both) + _slices(2, 0, both) + _slices(3, 0), budget_s=2500))
+        hs.append(Harness("events_len4", h_events5, _slices(4, 3), budget_s=2500))
+        hs.append(Harness("events_len5", h_events5, _slices(5, 5), budget_s=2500))
+        hs.append(Harness("events_len5_levels", h_events5, _slices(5, 6), budget_s=2500))
     return hs
 
 
@@ -504,11 +519,35 @@ def _decode(args):
     return out
 
 
+def _same_fn_on_two_levels(ops) -> bool:
+    """Does the history register one listener function on two targets that share instances (a class and its
+    ancestor / an instance and its class) and later remove one of the two registrations?"""
+    reach = {0: (0, 1, 2, 3), 1: (1, 3), 2: (2,), 3: (3,)}  # target -> targets whose dispatches it reaches (Base reaches all)
+    reg = []
+    for (op, _) in ops:
+        kd, t, f = op[0], op[1], op[2]
+        if kd == 0:
+            reg.append((t, f))
+        elif kd == 1 and (t, f) in reg:
+            for (t2, f2) in reg:
+                if f2 == f and t2 != t and (t in reach[t2] or t2 in reach[t]):
+                    return True
+            reg.remove((t, f))
+    return False
+
+
 def classify(hname, args, rep):
+    """Key = failed oracle clause (from a concrete re-run) + the triggering feature of the history."""
+    from vlib import symx
+
     names = ["listen", "remove", "subclass", "instance", "dispatch", "exec_once", "exec_once_unless_exception"]
+    del _WHY[:]
+    symx.run_concrete(h_events3 if hname in ("events_full", "events_len3_order", "events_len3_once") else h_events5, args)
+    why = _WHY[0] if _WHY else "exception:" + str(rep.get("exception"))[:60]
+    ops = _decode(args)
     hist = []
     feats = []
-    for (op, x) in _decode(args):
+    for (op, x) in ops:
         kd, t, f, i_, o = op
         if kd == 0:
             hist.append("listen(t%d,f%d%s%s%s)" % (t, f, ",insert" if i_ else "", ",propagate" if args["pg"] else "", ",once" if o else ""))
@@ -523,10 +562,13 @@ def classify(hname, args, rep):
             hist.append("instance(cls%d)" % t)
         else:
             hist.append("%s(inst%d,x=%d)" % (names[kd], t, x))
-    shape = ">".join(h.split("(")[0] for h in hist)
-    return ("C28:%s:%s" % (shape, "+".join(sorted(feats)) or "plain"),
-            "event history %s (targets: t0=Base t1=Sub t2=Base instance t3=Sub instance) disagrees with the reference registry (%s)"
-            % (" ; ".join(hist), rep.get("exception")))
+    if _same_fn_on_two_levels(ops):
+        trigger = "same-fn-on-class-and-ancestor-then-remove"
+    else:
+        trigger = ">".join(h.split("(")[0] for h in hist) + ":" + ("+".join(sorted(feats)) or "plain")
+    return ("C28:%s:%s" % (why, trigger),
+            "%s -- event history %s, then dispatch on every instance (targets: t0=Base t1=Sub t2=Base instance t3=Sub instance)"
+            % (why, " ; ".join(hist)))
 
 
 def run(tier: str, seed: int):
